@@ -457,6 +457,76 @@ class FnEffects:
                 res.add((root[1] - 1, fields_only(proj)))
         return res
 
+    def value_src(self, l, depth=0):
+        """{field chain of the value held by local l: (argidx, chain) external path it is a copy of}"""
+        f = self.f
+        if depth > 8:
+            return {}
+        sd = f.single_def(l)
+        if sd is None:
+            return {}
+        bi, si, st = sd
+        if si == "term":
+            targets, foreign = self.E.targets(st)
+            if len(targets) != 1 or st["callee"].get("inst") == "virtual":
+                return {}
+            sm = self.E.sums.get(targets[0])
+            if not sm or not sm.ret_copy:
+                return {}
+            out = {}
+            for rch, (ai, ch) in sm.ret_copy.items():
+                if ai >= len(st["args"]):
+                    continue
+                ps = self.E._arg_paths(self.pts, st["args"][ai])
+                if len(ps) != 1:
+                    continue
+                (b0, bch) = next(iter(ps))
+                out[rch] = ((b0, bch + ch), bi)
+            return out
+        if st.get("k") != "assign":
+            return {}
+        rv = st["rv"]
+        if rv["k"] == "use" and rv["op"]["k"] in ("copy", "move"):
+            pl = rv["op"]["place"]
+            if all(e["k"] == "field" for e in pl["proj"]) and not (1 <= pl["local"] <= f.argc and f.local_ty(pl["local"])["k"] in ("ref", "refmut")):
+                base = self.value_src(pl["local"], depth + 1)
+                chain = tuple(e["name"] if e.get("name") is not None else str(e["i"]) for e in pl["proj"])
+                out = {}
+                for k, v in base.items():
+                    if k[: len(chain)] == chain:
+                        out[k[len(chain):]] = v
+                if out:
+                    return out
+            if pl["proj"]:
+                eps = self.ext_paths_of_place(pl)
+                if len(eps) == 1:
+                    return {(): (next(iter(eps)), bi)}
+            return {}
+        if rv["k"] == "aggregate" and rv.get("agg") in ("adt", "tuple"):
+            names = rv.get("field_names") or [str(i) for i in range(len(rv["ops"]))]
+            out = {}
+            for nm, o in zip(names, rv["ops"]):
+                if o["k"] in ("copy", "move") and not o["place"]["proj"]:
+                    for k, v in self.value_src(o["place"]["local"], depth + 1).items():
+                        out[(nm,) + k] = v
+                elif o["k"] in ("copy", "move"):
+                    eps = self.ext_paths_of_place(o["place"])
+                    if len(eps) == 1:
+                        out[(nm,)] = (next(iter(eps)), bi)
+            return out
+        return {}
+
+    def snapshot_of(self, l):
+        """value_src(l) restricted to entries whose source was not yet written when l was defined"""
+        src = self.value_src(l)
+        out = {}
+        for k, (p, bi) in src.items():
+            st = self.block_in_live.get(bi)
+            written = st[0] if st else frozenset()
+            if not any(q[0] == p[0] and overlaps(q[1], p[1]) for q in written):
+                out[k] = p
+        return out
+
     def _discr_src(self):
         """local d -> local x for d = discriminant(x)"""
         m = {}
@@ -473,6 +543,7 @@ class FnEffects:
         nb = len(f.blocks)
         # state per block entry: (frozenset written, frozenset pending (local, callbb), frozenset pendbool)
         IN = {0: (frozenset(), frozenset())}
+        self.block_in_live = IN
         work = [0]
         call_info = {}
         edge_out = {}
@@ -623,6 +694,9 @@ class FnEffects:
                         work.append(sb)
         self.block_in = IN
         self.call_info = call_info
+        rc = self.value_src(0)
+        if rc:
+            self.ret_copy = {k: v[0] for k, v in rc.items()}
         self._finish()
 
     @staticmethod
@@ -686,13 +760,8 @@ class FnEffects:
             if a["k"] not in ("copy", "move") or a["place"]["proj"]:
                 continue
             sl = a["place"]["local"]
-            snap = self.snap.get(sl)
-            if snap is None:
-                continue
-            (sp, sbb) = snap
-            if sch:
-                continue
-            if sp == full:
+            snap = self.snapshot_of(sl)
+            if snap.get(tuple(sch)) == full:
                 killed.add(full)
         return killed
 
